@@ -15,7 +15,7 @@ CONSTANTS
   RespFaults = FALSE
   PreResp = TRUE
   Probe = FALSE
-  AsBuiltT <- NoT
+  AsBuiltT <- ZeroNoTimeout
   GenDepth = 0
 INIT InitH
 NEXT NextH
